@@ -373,6 +373,23 @@ pub fn gen_lattice<R: Src>(r: &mut R, cfg: &GenCfg) -> Program {
                heads: vec![head(&lname, hargs)],
                body: vec![clause(&hit, vec![av(&x)]), clause(&edge, vec![av(&x), av(&y), av(&w)])],
             });
+            if r.chance(60) {
+               // the plain relation (now recursive with the lattice) drives the rule and the lattice is looked up by its
+               // complete key: a key's first row and the fact that asks for it can arrive in the same iteration
+               let (x, y, z, w) = (names.fresh(), names.fresh(), names.fresh(), names.fresh());
+               let rd = read_value(r, vt, &mut names);
+               let (body, hkeys) = if n_keys == 1 {
+                  (vec![clause(&hit, vec![av(&x)]), clause(&lname, vec![av(&x), rd.arg.clone()]), clause(&edge, vec![av(&x), av(&y), av(&w)])], vec![var(&y)])
+               } else {
+                  (
+                     vec![clause(&hit, vec![av(&x)]), clause(&edge, vec![av(&x), av(&y), av(&w)]), clause(&lname, vec![av(&x), av(&y), rd.arg.clone()]), clause(&edge, vec![av(&y), av(&z), Arg::Wild])],
+                     vec![var(&y), var(&z)],
+                  )
+               };
+               let mut hargs = hkeys;
+               hargs.push(step(r, vt, &rd, Some(var(&w))));
+               prog.rules.push(Rule { heads: vec![head(&lname, hargs)], body });
+            }
          }
       }
    }
